@@ -322,3 +322,35 @@ func phiLeaves(v ssa.Value) []ssa.Value {
 	walk(v)
 	return out
 }
+
+// retResults returns the returned values of a Return, resolving the
+// "defer spill" shape of go/ssa (`*r = v; rundefers; t = *r; return t`) to v.
+func retResults(ret *ssa.Return) []ssa.Value {
+	out := make([]ssa.Value, len(ret.Results))
+	for i, rv := range ret.Results {
+		out[i] = rv
+		ld, ok := rv.(*ssa.UnOp)
+		if !ok || ld.Op != token.MUL {
+			continue
+		}
+		a, ok := ld.X.(*ssa.Alloc)
+		if !ok {
+			continue
+		}
+		// last store to a in this block before the load
+		b := ret.Block()
+		var last ssa.Value
+		for _, in := range b.Instrs {
+			if in == ssa.Instruction(ld) {
+				break
+			}
+			if st, ok := in.(*ssa.Store); ok && st.Addr == ssa.Value(a) {
+				last = st.Val
+			}
+		}
+		if last != nil {
+			out[i] = last
+		}
+	}
+	return out
+}
